@@ -554,7 +554,11 @@ impl BytecodeBuilder {
     }
 
     /// Reserve a range of consecutive registers
-    pub fn reserve_registers(&mut self, count: u8) -> Result<Register, JsError> {
+    pub fn reserve_registers(&mut self, count: usize) -> Result<Register, JsError> {
+        // Registers are 8-bit: refuse oversized constructs here instead of letting the
+        // count wrap (a 256-element literal used to reserve 0 registers)
+        let count = u8::try_from(count)
+            .map_err(|_| JsError::internal_error("Too many registers needed (max 255)"))?;
         self.registers.reserve_range(count)
     }
 }
